@@ -81,6 +81,7 @@ func init() {
 		ruleOptsForward(c, r, c.anchored("C05"), 10)
 		ruleIfaceIdentity(c, r)
 		ruleMergeUnset(c, r)
+		ruleBinaryLeaf(c, r)
 	})
 }
 
